@@ -50,7 +50,11 @@ type kvElection struct {
 	lastTransition  atomic.Value
 	leaderStartTime atomic.Value // Track when leadership started for duration metric
 
-	watcherRunning atomic.Bool
+	// watcherCtx is the context of the run whose watcher goroutine has been started
+	// (nil: none). It is the run's identity: a watcher of an earlier run that is
+	// still finishing must neither keep this run from getting its own watcher nor
+	// clear this run's marker when it ends. Guarded by mu.
+	watcherCtx context.Context
 
 	// deleteKeyOnStop is set by a StopWithContext that was asked to delete the
 	// key; see discardUnclaimedRecord.
@@ -666,17 +670,27 @@ func (e *kvElection) enterFollowerState(demote bool, term context.Context) bool 
 		)...,
 	)
 
-	if ctx := e.ctx; ctx != nil && !e.watcherRunning.Load() {
-		e.watcherRunning.Store(true)
+	if ctx := e.ctx; ctx != nil && e.watcherCtx != ctx {
+		e.watcherCtx = ctx
 		e.wg.Add(1)
 		go func() {
-			defer e.watcherRunning.Store(false)
+			defer e.watcherEnded(ctx)
 			defer e.wg.Done()
 			e.watchLoop(ctx)
 		}()
 	}
 
 	return wasLeader
+}
+
+// watcherEnded clears the watcher marker when the watcher goroutine of the run
+// with the given context ends - unless a later run has started its own since.
+func (e *kvElection) watcherEnded(ctx context.Context) {
+	e.mu.Lock()
+	if e.watcherCtx == ctx {
+		e.watcherCtx = nil
+	}
+	e.mu.Unlock()
 }
 
 // demote steps down and invokes the OnDemote callback if, and only if, this call
@@ -743,7 +757,7 @@ func (e *kvElection) Stop() error {
 	e.isLeader.Store(false)
 	e.state.Store(StateStopped)
 	e.lastTransition.Store(time.Now())
-	e.watcherRunning.Store(false)
+	e.watcherCtx = nil
 
 	e.recordTransition(currentState, StateStopped)
 	e.updateIsLeaderMetric()
@@ -820,7 +834,7 @@ func (e *kvElection) StopWithContext(ctx context.Context, opts StopOptions) erro
 	e.isLeader.Store(false)
 	e.state.Store(StateStopped)
 	e.lastTransition.Store(time.Now())
-	e.watcherRunning.Store(false)
+	e.watcherCtx = nil
 
 	e.recordTransition(currentState, StateStopped)
 	e.updateIsLeaderMetric()
